@@ -392,8 +392,18 @@ def all_streams(ctx):
     return [s1, s2], [s3, s4]
 
 
+def check_idents(ctx):
+    """the reference table IDENTS must be the harness's certificate table"""
+    import subprocess
+    out = subprocess.run([ctx.impl_bin, "idents"], stdout=subprocess.PIPE, text=True, timeout=60).stdout.strip().split("\n")
+    mine = ["%s|%d" % (",".join(s), int(i == 1)) for s, i in IDENTS]
+    if out != mine:
+        ctx.report("build-broken", {"what": "correspondence C19/c19tls cannot be run: certificate tables differ (harness %r, plugin %r)" % (out, mine)}, nfi=True)
+
+
 def custom(ctx):
     pure, two = all_streams(ctx)
+    check_idents(ctx)
     for st in pure:
         ctx.run_stream(st)
     for st in two:
